@@ -252,7 +252,7 @@ fn main() {
     });
 
     // (b)
-    let l = run.pick(7, 10);
+    let l = run.pick(7, 11);
     let cnames = char_names();
     run.bound(format!(
         "(b) all {} strings of length <= {} over {:?} x {} names",
